@@ -254,8 +254,8 @@ def _constraint(G, cyc, seed):
     return cands[seed % len(cands)]
 
 
-def _mk(model, edges, wt="int", k=None, cons=None, ign=None, starts=None, ends=None, opts=None):
-    return dict(model=model, edges=edges, wt=wt, k=k, cons=cons, ign=ign, starts=starts, ends=ends, opts=opts or {})
+def _mk(model, edges, wt="int", k=None, cons=None, ign=None, starts=None, ends=None, opts=None, cov=None):
+    return dict(model=model, edges=edges, wt=wt, k=k, cons=cons, ign=ign, starts=starts, ends=ends, opts=opts or {}, cov=cov)
 
 
 def _instances(tier):
@@ -306,6 +306,27 @@ def _instances(tier):
     yield _mk("MinFlowDecomp", [["x", "w", 1], ["y", "w", 2], ["y", "z", 3], ["z", "w", 3]], "int", ign=[["y", "w"]])
     yield _mk("MinFlowDecomp", [["x", "w", 1], ["x", "y", 2], ["x", "z", 4]], "float", ign=[["x", "y"]])
     yield _mk("MinFlowDecompCycles", [["y", "w", 1], ["y", "y", 1], ["z", "w", 2], ["z", "y", 1]], "int", ign=[["z", "w"]])
+    # two diamonds in a row with a NON-contiguous constraint across the merge node (raises the optimum from 2 to 3 at full coverage), at
+    # coverage 1 / 0.75 / 0.5 (2 edges x 0.75 = 1.5: a non-integer required amount): greedy, guessed weights, lower bounds must all agree
+    for a, b in ((2, 1), (3, 1), (1, 1)) if not quick else ((2, 1),):
+        E = [["s", "x", a], ["x", "m", a], ["s", "y", b], ["y", "m", b], ["m", "p", a], ["p", "t", a], ["m", "q", b], ["q", "t", b]]
+        for cov in (None, 0.75, 0.5):
+            con = [[["s", "x"], ["m", "q"]]]
+            yield _mk("MinFlowDecomp", E, "int", cons=con, cov=cov)
+            yield _mk("kFlowDecomp", E, "int", 2, cons=con, cov=cov)
+            if not quick:
+                yield _mk("kFlowDecomp", E, "int", 3, cons=con, cov=cov)
+                yield _mk("kMinPathError", E, "int", 2, cons=con, cov=cov)
+    # figure-eight: the walk s a b c a b t re-enters the SCC edge a->b, so a safe sequence holds one edge twice; every rotation of the
+    # insertion order of the edges (the column order of the edge variables differs from the order along the walk)
+    F8 = [["c", "a", 2], ["a", "b", 4], ["b", "c", 2], ["s", "a", 2], ["b", "t", 2]]
+    for r in range(len(F8)) if not quick else (0, 2, 3):
+        E = F8[r:] + F8[:r]
+        yield _mk("kFlowDecompCycles", E, "int", 1)
+        yield _mk("MinFlowDecompCycles", E, "int")
+        if not quick:
+            yield _mk("kFlowDecompCycles", list(reversed(E)), "int", 1)
+            yield _mk("kMinPathErrorCycles", E, "int", 1)
     # a long, narrow DAG so that the subgraph-scanning lower bound (window of 20 nodes) actually runs
     for reps, tail in ((8, 2), (9, 3)):
         E, prev = [], "a0"
@@ -431,6 +452,8 @@ def lib_verdict(inst, opts):
         kw["k"] = inst["k"]
     if inst["cons"]:
         kw["subset_constraints" if cyc else "subpath_constraints"] = [[tuple(e) for e in c] for c in inst["cons"]]
+    if inst["cons"] and inst.get("cov") is not None:
+        kw["subset_constraints_coverage" if cyc else "subpath_constraints_coverage"] = inst["cov"]
     if inst["ign"]:
         kw["elements_to_ignore"] = [tuple(e) for e in inst["ign"]]
     if inst["starts"]:
@@ -464,7 +487,7 @@ _cache = {}
 
 
 def _verdict(inst, opts):
-    key = repr((inst["model"], inst["edges"], inst["wt"], inst["k"], inst["cons"], inst["ign"], inst["starts"], inst["ends"], sorted(opts.items())))
+    key = repr((inst["model"], inst["edges"], inst["wt"], inst["k"], inst["cons"], inst.get("cov"), inst["ign"], inst["starts"], inst["ends"], sorted(opts.items())))
     if key not in _cache:
         if len(_cache) > 4000:
             _cache.clear()
@@ -500,7 +523,7 @@ def _fmt(opts):
 
 
 def check(case):
-    inst = {k: case[k] for k in ("model", "edges", "wt", "k", "cons", "ign", "starts", "ends")}
+    inst = {k: case.get(k) for k in ("model", "edges", "wt", "k", "cons", "ign", "starts", "ends", "cov")}
     ref = _verdict(inst, {})
     if ref["status"] == "ValueError":
         return dict(ok=None, nontrivial=False, what="instance rejected under default options (outside C05's domain): %s on %s" % (ref["err"], inst))
@@ -527,8 +550,8 @@ def check(case):
     d, blame, opts, got = bad[0]
     return dict(ok=False, nontrivial=True,
                 fingerprint="%s: %s under {%s}" % (inst["model"], d, _fmt(blame)),
-                what="%s k=%s wt=%s edges=%s cons=%s ign=%s starts=%s ends=%s opts=%s: default -> solved=%s obj=%s status=%s; with options -> solved=%s obj=%s status=%s %s"
-                     % (inst["model"], inst["k"], inst["wt"], inst["edges"], inst["cons"], inst["ign"], inst["starts"], inst["ends"], opts,
+                what="%s k=%s wt=%s edges=%s cons=%s cov=%s ign=%s starts=%s ends=%s opts=%s: default -> solved=%s obj=%s status=%s; with options -> solved=%s obj=%s status=%s %s"
+                     % (inst["model"], inst["k"], inst["wt"], inst["edges"], inst["cons"], inst.get("cov"), inst["ign"], inst["starts"], inst["ends"], opts,
                         ref["solved"], ref["obj"], ref["status"], got["solved"], got["obj"], got["status"], got["err"] or "")
                      + ("" if len(bad) == 1 else " | %d more option sets of this case differ: %s" % (len(bad) - 1, "; ".join("%s under {%s}" % (b[0], _fmt(b[2])) for b in bad[1:]))),
                 detail=dict(default=ref, options=got, blamed=blame, all_differing=[b[2] for b in bad]))
